@@ -287,7 +287,7 @@ check("C05", "fault_enumeration",
       "channel (run twice, must agree), then one run per (channel, chunk, fault) with faults = bit flips at bytes {0,1,mid,last} "
       "x masks {0x01,0x80} (every byte x 8 masks in thorough), zeroed chunk, and replaced 8-byte counts; every one of the three "
       "helpers is the corrupt sender in turn. distinct_nontrivial = faults whose interceptor fired and changed >= 1 byte "
-      "+ honest cases with >= 2 rows. Row types: the honest shuffle repeated for 32-bit and 112-bit rows and for the two production row types (hybrid report 64+3+8 bits, aggregation row 3+8 bits), 1-3 shards, 0..8 (16) rows, both modes.",
+      "+ honest cases with >= 2 rows. Row types: the honest shuffle repeated for 32-bit and 112-bit rows and for the two production row types (hybrid report 64+3+8 bits, aggregation row 3+8 bits) and their widest instances (64+16+32 and 16+16 bits, which fill the 112- and 32-bit shuffle shares exactly), 1-3 shards, 0..8 (16) rows, both modes.",
       [{"name": "shuffle", "config": "A", "test": "verif::c05::run", "timeout": {"quick": 900, "thorough": 7200},
         "require": {"any": {"tamper_rejected": 50, "honest_runs": 100, "channels_in_census": 20}}},
        {"name": "rows", "config": "A", "test": "verif::c05b::run", "timeout": {"quick": 900, "thorough": 3600},
